@@ -40,8 +40,20 @@ def make_case(seed: int) -> Dict[str, str]:
     files: Dict[str, str] = {}
     # an optional sibling package with a message type the service refers to
     sib = None
+    same_named = False
     if rng.randrange(2):
-        sib_pkg = pkg[:-1] + ["sib"] if rng.randrange(2) else ["other", "place"]
+        kind = rng.randrange(4)
+        if kind == 0:
+            sib_pkg = pkg[:-1] + ["sib"]
+        elif kind == 1:
+            sib_pkg = ["other", "place"]
+        else:
+            # a COUSIN package: same depth, one component replaced by another that starts with the same
+            # letter(s) (shop.orders.v1 / shop.offers.v1) - the relative import has to climb to the right ancestor
+            i = rng.randrange(len(pkg))
+            c = pkg[i]
+            sib_pkg = pkg[:i] + [c[:1 + rng.randrange(2)] + "q" + c[:0:-1]] + pkg[i + 1:]
+            same_named = bool(rng.randrange(2))
         sib = ".".join(sib_pkg)
         files["sib.proto"] = (f'syntax = "proto3";\npackage {sib};\n\n'
                               f'message Shared {{\n  string label = 1;\n  repeated sint32 nums = 2;\n'
@@ -58,6 +70,9 @@ def make_case(seed: int) -> Dict[str, str]:
         if i == 0:
             fields.append("  message Inner { string s = 1; int32 k = 2; }\n  Inner inner = 15;")
         msgs.append((f"Msg{i}", "\n".join(fields)))
+    if same_named:
+        # the service's own package has a message of the same name as the cousin's, with another layout
+        msgs.append(("Shared", "  fixed32 own = 1;\n  string label = 2;"))
     types: List[str] = [m[0] for m in msgs] + ["Msg0.Inner"]
     if sib:
         imports.add("sib.proto")
